@@ -199,9 +199,11 @@ fn enc_ctx(ke: &[u8]) -> EncCtx { let k = u(ke); EncCtx { ke: ke.to_vec(), msk: 
 
 fn encrypt_event(t: &mut Tracer, sess: &str, c: &EncCtx, id: &[u8], g: Option<&Gen>, msg: &[u8], script: Vec<[u8; 32]>) -> Option<(Vec<u8>, Vec<u8>)> {
     let (msk, id2, m) = (c.msk, id.to_vec(), msg.to_vec());
+    let script_len = script.len();
     let (o, rs, _) = hooked(script, move || Ok(msk.encrypt(&id2, &m)));
     let ct = o.ok().cloned().unwrap_or_default();
-    let mut f = json!({"prop": "C10", "ke": bytes(&c.ke), "idb": bytes(id), "rs": rs.iter().map(|r| bytes(r)).collect::<Vec<_>>(), "ct": bytes(&ct), "outcome": o.name(), "detail": o.detail()});
+    let mut f = json!({"prop": "C10", "ke": bytes(&c.ke), "idb": bytes(id), "rs": rs.iter().map(|r| bytes(r)).collect::<Vec<_>>(), "ct": bytes(&ct), "expect_retry": 0, "outcome": o.name(), "detail": o.detail()});
+    if rs.len() > 1 || script_len > 1 { f["expect_retry"] = json!(1); }
     msg_fields(&mut f, g, msg);
     t.emit(sess, "sm9.encrypt", f);
     if o.ok().is_some() && !rs.is_empty() { Some((ct, rs.last().unwrap().clone())) } else { None }
@@ -226,6 +228,13 @@ pub fn drive_encrypt(t: &mut Tracer, tier: &str, seed: u64, plan: Option<String>
     let annex = enc_ctx(&hexb("0001edee3778f441f8dea3d9fa0acc4e07ee36c93f9a08618af4ad85cede1c22"));
     let r_annex = b32(&hexb("0000aac0541779c8fc45e3e2cb25c12b5d2576b2129ae8bb5ee2cbe5ec9e785c"));
     if let Some((ct, r)) = encrypt_event(t, &sess(), &annex, b"Bob", None, b"Chinese IBE standard", vec![r_annex]) {
+        decrypt_event(t, &sess(), &annex, b"Bob", b"Bob", &ct, Some(&r), "none");
+    }
+    // A6 retry: for this (ke, ID, one-byte message) the first scripted r gives an all-zero K1 (C2 would equal M): the standard draws again,
+    // so the ciphertext must be the one of the SECOND scripted r.  (r1 = Annex r + 50; the specification confirms that it is a retry.)
+    let r1 = b32(&hexb("0000aac0541779c8fc45e3e2cb25c12b5d2576b2129ae8bb5ee2cbe5ec9e788e"));
+    let r2 = b32(&scalar(&mut rng));
+    if let Some((ct, r)) = encrypt_event(t, &sess(), &annex, b"Bob", None, &[0x5a], vec![r1, r2]) {
         decrypt_event(t, &sess(), &annex, b"Bob", b"Bob", &ct, Some(&r), "none");
     }
     // every message length 1..=255 (quick: boundary subset)
